@@ -119,8 +119,10 @@ def normalize_dict(d):
             return "__seen", _SEEN[id(d)][0]
         _SEEN[id(d)] = len(_SEEN), d
         try:
+            # Break ties between keys that print alike (1 and "1") by type, so
+            # that the result does not depend on insertion order
             return "dict", _normalize_seq_func(
-                sorted(d.items(), key=lambda kv: str(kv[0]))
+                sorted(d.items(), key=lambda kv: (str(kv[0]), str(type(kv[0]))))
             )
         finally:
             _SEEN.pop(id(d), None)
@@ -136,7 +138,10 @@ def normalize_set(s):
     # Note: in some Python version / OS combinations, set order changes every
     # time you recreate the set (even within the same interpreter).
     # In most other cases, set ordering is consistent within the same interpreter.
-    return type(s).__name__, _normalize_seq_func(sorted(s, key=str))
+    # Break ties between elements that print alike (True and "True") by type
+    return type(s).__name__, _normalize_seq_func(
+        sorted(s, key=lambda x: (str(x), str(type(x))))
+    )
 
 
 def _normalize_seq_func(seq: Iterable[object]) -> tuple[object, ...]:
